@@ -233,12 +233,15 @@ func pkgPathOf(fn *ssa.Function) string {
 	return ""
 }
 
+// Standard-library functions whose real bodies are executed symbolically (they are small and within the subset);
+// everything else from the standard library is either modelled (models.go) or external.
+var stdInline = map[string]bool{
+	"(*bytes.Reader).ReadByte": true, "(*bytes.Reader).Read": true, "(*bytes.Reader).Len": true, "(*bytes.Reader).Size": true,
+	"bytes.NewReader": true, "(*bytes.Reader).Reset": true, "(*bytes.Reader).UnreadByte": true,
+}
+
 func (x *Exec) inlineStdlib(fn *ssa.Function) bool {
-	switch pkgPathOf(fn) {
-	case "math/bits", "encoding/binary", "slices", "bytes", "sort", "maps", "cmp", "errors":
-		return len(fn.Blocks) > 0 && x.allowStdInline[fn.String()]
-	}
-	return false
+	return len(fn.Blocks) > 0 && (stdInline[fn.String()] || x.allowStdInline[fn.String()])
 }
 
 func (x *Exec) isPureExternal(name string) bool {
